@@ -8,11 +8,11 @@ use std::panic::{catch_unwind, AssertUnwindSafe};
 use std::sync::atomic::{AtomicU64, Ordering};
 use std::time::Instant;
 
-fn dfs(ctx: &mut Ctx, node: &Node, seen: &mut FxSet<TurnKey>) {
+fn dfs(ctx: &mut Ctx, node: &Node, seen: &mut FxSet<TurnKey>, max_turns: usize) {
     if report::stopped() {
         return;
     }
-    let key = turn_key(node);
+    let key = turn_key(node, max_turns > 1);
     if !seen.insert(key) {
         return;
     }
@@ -20,9 +20,9 @@ fn dfs(ctx: &mut Ctx, node: &Node, seen: &mut FxSet<TurnKey>) {
     ctx.stats.digest = ctx.stats.digest.wrapping_add(sip(&(ctx.root.idx, key, node.gold)));
     let succ = visit(ctx, node);
     for s in succ {
-        if !s.ends_turn {
+        if !s.ends_turn || s.node.hist.len() <= max_turns {
             ctx.path.push(s.action);
-            dfs(ctx, &s.node, seen);
+            dfs(ctx, &s.node, seen, max_turns);
             ctx.path.pop();
         }
     }
@@ -38,6 +38,8 @@ pub struct E1Opts<'a> {
     pub chunk: usize,
     /// only evaluate the turn-start oracles on each root, do not expand
     pub roots_only: bool,
+    /// number of full turns explored from each root (1 = the turn explorer proper)
+    pub max_turns: usize,
 }
 
 pub fn run_family(fam: &Family, o: &E1Opts) -> FamilyResult {
@@ -60,7 +62,13 @@ pub fn run_family(fam: &Family, o: &E1Opts) -> FamilyResult {
                 Some(x) => x,
                 None => return acc,
             };
-            let root = RootInfo { explorer: "E1", family: fam_name.clone(), idx, board, gold, move_number: o.move_number, config: serde_json::Value::Null };
+            let how = match (&fam.setups, fam.how) {
+                (Some(o), _) => RootHow::Setup(o[idx as usize].clone()),
+                (None, 1) => RootHow::Parsed,
+                (None, 2) if idx % 2 == 1 => RootHow::Parsed,
+                _ => RootHow::Constructed,
+            };
+            let root = RootInfo { how, explorer: "E1", family: fam_name.clone(), idx, board, gold, move_number: o.move_number, config: serde_json::Value::Null };
             let mut ctx = Ctx::new(o.checks, o.prop, &root);
             let r = catch_unwind(AssertUnwindSafe(|| {
                 let n = root_node(&root);
@@ -69,7 +77,7 @@ pub fn run_family(fam: &Family, o: &E1Opts) -> FamilyResult {
                     ctx.stats.states += 1;
                 } else {
                     let mut seen: FxSet<TurnKey> = FxSet::default();
-                    dfs(&mut ctx, &n, &mut seen);
+                    dfs(&mut ctx, &n, &mut seen, o.max_turns);
                 }
             }));
             if r.is_err() {
